@@ -140,7 +140,7 @@ pub fn search(prop: &dyn Prop, tier: Tier, seed: u64, run_from: u64, run_to: u64
     let t0 = Instant::now();
     let known = load_known();
     let nworkers = workers().max(1);
-    let chunk: u64 = 1024;
+    let chunk: u64 = 4096;
     let mut merged = Stats::new();
     let mut known_hits: BTreeMap<String, (u64, String)> = BTreeMap::new();
     let mut violation: Option<(Trace, Finding)> = None;
@@ -154,15 +154,19 @@ pub fn search(prop: &dyn Prop, tier: Tier, seed: u64, run_from: u64, run_to: u64
     while a < run_to && violation.is_none() {
         let b = (a + chunk).min(run_to);
         let results: Mutex<Vec<(u64, Vec<Finding>, Stats)>> = Mutex::new(Vec::new());
+        // dynamic assignment inside the chunk (runs are independent and results are merged in
+        // run order afterwards, so which worker executes which run does not matter)
+        let next = std::sync::atomic::AtomicU64::new(a);
         std::thread::scope(|s| {
             for w in 0..nworkers {
                 let results = &results;
                 let hang = &hang;
+                let next = &next;
                 s.spawn(move || {
                     let mut local: Vec<(u64, Vec<Finding>, Stats)> = Vec::new();
-                    let mut run = a + w as u64;
-                    while run < b {
-                        if hang.load(Ordering::Relaxed) {
+                    loop {
+                        let run = next.fetch_add(1, Ordering::Relaxed);
+                        if run >= b || hang.load(Ordering::Relaxed) {
                             break;
                         }
                         let trace = prop.gen(seed, run, tier);
@@ -180,7 +184,6 @@ pub fn search(prop: &dyn Prop, tier: Tier, seed: u64, run_from: u64, run_to: u64
                             g[w] = None;
                         }
                         local.push((run, findings, st));
-                        run += nworkers as u64;
                     }
                     results.lock().unwrap().extend(local);
                 });
